@@ -76,12 +76,16 @@ func tlaSchema(a *aspec.ASpec, s aspec.Schema, depth int) map[string]any {
 		// inlineAddl: the value schema of additionalProperties is declared inline as an object / allOf / oneOf
 		// (selector of a known finding)
 		inlineAddl := s.AddlK == "schema" && s.Addl != nil && (s.Addl.K == "object" || s.Addl.K == "allOf" || s.Addl.K == "oneOf")
-		return map[string]any{"k": "object", "nullable": s.Nullable, "props": props, "addl": addl, "inlineAddl": inlineAddl}
+		return map[string]any{"k": "object", "nullable": s.Nullable, "props": props, "addl": addl, "inlineAddl": inlineAddl, "addlNotLast": false}
 	case "allOf":
 		props := []any{}
 		addl := map[string]any{"k": "none", "s": map[string]any{"k": "any", "nullable": false}}
-		for _, m := range s.Of {
+		addlNotLast := false // a member with additionalProperties is followed by another member (selector of a known finding)
+		for mi, m := range s.Of {
 			r := tlaSchema(a, m, depth+1)
+			if ad, ok := r["addl"].(map[string]any); ok && ad["k"] != "none" && mi < len(s.Of)-1 {
+				addlNotLast = true
+			}
 			if ps, ok := r["props"].([]any); ok {
 				for _, p := range ps {
 					// a name the wrapper's own `required` lists is required of the merged object
@@ -103,7 +107,7 @@ func tlaSchema(a *aspec.ASpec, s aspec.Schema, depth int) map[string]any {
 				addl = ad
 			}
 		}
-		return map[string]any{"k": "object", "nullable": s.Nullable, "props": props, "addl": addl, "inlineAddl": false} // (nullable next to allOf: the wrapper's own)
+		return map[string]any{"k": "object", "nullable": s.Nullable, "props": props, "addl": addl, "inlineAddl": false, "addlNotLast": addlNotLast} // (nullable next to allOf: the wrapper's own)
 	case "oneOf":
 		of := []any{}
 		tags := []any{}
